@@ -39,7 +39,7 @@ Definition model_variant (d : decl) (i : nat) : sx :=
   | None => SL [SN 1; SN 0]
   | Some v => match v_kind v with
               | VFallback => SL [SN 0; SL []]
-              | _ => SL [SN 0; SL [SS (v_out v)]]
+              | _ => SL [SN 0; SL [SS (v_out v); sx_nat (value_pos d (from_str d (v_out v)))]]
               end
   end.
 
@@ -90,7 +90,9 @@ Fixpoint entry_of (t : table) (i : nat) : option spelling :=
 
 Definition spec_variant (t : table) (i : nat) (impl : sx) : bool :=
   match entry_of t i, impl with
-  | Some e, SL [SN 0; SL [SS o]] => str_eqb o (sp_canon e)
+  | Some e, SL [SN 0; SL [SS o; back]] =>
+      (* the variant prints its canonical spelling, and that spelling selects the variant *)
+      str_eqb o (sp_canon e) && (match as_nat back with Some j => Nat.eqb j i | None => false end)
   | Some _, _ => false
   | None, SL [SN 2] => false
   | None, _ => true
